@@ -55,5 +55,12 @@ pub fn neighbours() -> Vec<GrammarSrc> {
         mk("nbone", "Nb: 'n' Val;\nterminals\nKn: 'n';\nVal: /\\d+/;\n"),
         mk("aaa_first", "Zed: Zed 'z' | 'z';\nterminals\nKz: 'z';\n"),
         mk("zzz_last", "Pair: left=Word right=Word;\nterminals\nWord: /[a-z]+/;\n"),
+        // feature-bearing neighbours: whatever a grammar may switch on inside a
+        // shared `Settings` value or in process-global state must not leak into
+        // the grammars processed after it (look-around regex, Layout rule,
+        // @vec / sugar / priorities / associativity / dynamic meta-data)
+        mk("bbb_look", "Look: Foo+;\nterminals\nFoo: /foo(?=\\s|$)/;\n"),
+        mk("ccc_layout", "Lay: Num+;\nLayout: LayoutItem*;\nLayoutItem: WS | Comment;\nterminals\nNum: /\\d+/;\nWS: /\\s+/;\nComment: /#.*/;\n"),
+        mk("mmm_meta", "@vec\nMeta: Meta Elem | Elem;\nElem: Elem '+' Elem {Add, 1, left} | Elem '*' Elem {Mul, 2, right} | Num? {Opt} | 'k' Num*[Comma] {dynamic};\nterminals\nNum: /\\d+/ {prefer};\nPlus: '+';\nStar: '*';\nComma: ',';\nKk: 'k' {10};\n"),
     ]
 }
